@@ -148,6 +148,11 @@ func marshalStructValue(field reflect.Value, fieldType reflect.StructField) (str
 // convert a struct value of type struct {{{
 
 func marshalStructValueStruct(field reflect.Value, fieldType reflect.StructField) (string, error) {
+	if field.IsZero() {
+		/* nothing was ever set: an optional field that is left out */
+		return "", nil
+	}
+
 	/* Right, so, we've got a type we don't know what to do with. We should
 	 * grab the method, or throw a shitfit. */
 	if marshal, ok := field.Interface().(Marshallable); ok {
